@@ -1,6 +1,7 @@
 //! Correspondence harness for rdest: runs the real implementation (built from /repo's working tree
 //! with `--features verif`) on generated or replayed cases and prints one line per case:
 //! `<PROP> <args…> | <canonical implementation result>`.
+mod bcodec;
 mod conn;
 mod hand;
 mod sess;
@@ -16,6 +17,8 @@ fn run_line(prop: &str, args: &[&str]) -> String {
         "C08" | "C09" | "C10" | "C11" | "C20" | "C01" => hand::run(args),
         "C07" => wire::run(args),
         "C12" => sess::run12(args),
+        "C15" => bcodec::run15(args),
+        "C16" => bcodec::run16(args),
         "C13" => sess::run13(args),
         "C14" => sess::run14(args),
         _ => panic!("unknown property {}", prop),
@@ -28,6 +31,8 @@ fn gen(prop: &str, rng: &mut Rng, n: usize) -> Vec<String> {
         "C08" | "C09" | "C10" | "C11" | "C20" | "C01" => hand::gen(rng, n, prop),
         "C07" => wire::gen(rng, n),
         "C12" => sess::gen12(rng, n),
+        "C15" => bcodec::gen15(rng, n),
+        "C16" => bcodec::gen16(rng, n, std::env::args().nth(5).map(|t| t == "thorough").unwrap_or(false)),
         "C13" => sess::gen13(rng, n),
         "C14" => sess::gen14(rng, n),
         _ => panic!("unknown property {}", prop),
